@@ -4,7 +4,8 @@ import PysphVerif.Lemmas.Riemann
 
 After the preamble (`bl, br, plmin, prmin, umin, umax`) the function tries four
 sign patterns of `(u* - umin, u* - umax)`:
-A `(+,-)`, B `(-,+)`, C `(+,+)` each guarded by the sign test, D `(-,-)` unguarded.
+A `(+,-)`, B `(-,+)` each guarded by the sign test, C `(+,+)` guarded by the
+sign test and by its discriminant being non-negative, D `(-,-)` unguarded.
 The mirror image maps `(bl, br, plmin, prmin, umin, umax)` to
 `(br, bl, prmin, plmin, -umax, -umin)`, A to A, B to B, C to D and D to C.
 -/
@@ -32,6 +33,14 @@ def ducoUB (o : Ops K) (bl br plmin prmin umin umax : K) : K :=
     (br * umin - bl * umax -
       SIGN o (o.sqrt (pymax 0 (br * bl * (umin - umax) * (umin - umax) + (br - bl) * (prmin - plmin))))
         (umax - umin))
+
+/-- discriminant of case C -/
+def ducoDC (bl br plmin prmin umin umax : K) : K :=
+  (bl + br) * (plmin - prmin) - br * bl * (umin - umax) * (umin - umax)
+
+/-- discriminant of case D -/
+def ducoDD (bl br plmin prmin umin umax : K) : K :=
+  -((bl + br) * (plmin - prmin)) - br * bl * (umin - umax) * (umin - umax)
 
 /-- candidate star velocity of case C -/
 def ducoUC (o : Ops K) (bl br plmin prmin umin umax : K) : K :=
@@ -64,7 +73,8 @@ def ducoTail (o : Ops K) (bl br plmin prmin umin umax : K) : Res K :=
   else if ducoGB umin umax (ducoUB o bl br plmin prmin umin umax) then
     ⟨0, ducoP o bl br plmin prmin umin umax (ducoUB o bl br plmin prmin umin umax),
       ducoUB o bl br plmin prmin umin umax⟩
-  else if ducoGC umin umax (ducoUC o bl br plmin prmin umin umax) then
+  else if 0 ≤ ducoDC bl br plmin prmin umin umax ∧
+      ducoGC umin umax (ducoUC o bl br plmin prmin umin umax) then
     ⟨0, ducoP o bl br plmin prmin umin umax (ducoUC o bl br plmin prmin umin umax),
       ducoUC o bl br plmin prmin umin umax⟩
   else
@@ -148,13 +158,36 @@ theorem ducoGB_mirror (u : K) : ducoGB (-umax) (-umin) (-u) ↔ ducoGB umin umax
 theorem ducoGC_mirror (u : K) : ducoGC (-umax) (-umin) (-u) ↔ ducoGD umin umax u := by
   unfold ducoGC ducoGD; constructor <;> rintro ⟨h1, h2⟩ <;> constructor <;> linarith
 
-/-- reflection symmetry of the cascade, given that exactly one of the guards of
-C and D holds once A and B have failed -/
-theorem ducoTail_mirror
-    (hex : ¬ ducoGA umin umax (ducoUA (fieldOps sqrt pow) bl br plmin prmin umin umax) →
+theorem ducoDC_mirror :
+    ducoDC br bl prmin plmin (-umax) (-umin) = ducoDD bl br plmin prmin umin umax := by
+  unfold ducoDC ducoDD; ring
+
+/-- if the guarded forms of both C and D hold, both discriminants vanish and
+the two candidates coincide (`sqrt 0 = 0`, positive `bl, br`) -/
+theorem ducoUC_eq_UD (hbl : 0 < bl) (hbr : 0 < br) (hs0 : sqrt 0 = 0)
+    (hC : 0 ≤ ducoDC bl br plmin prmin umin umax) (hD : 0 ≤ ducoDD bl br plmin prmin umin umax) :
+    ducoUC (fieldOps sqrt pow) bl br plmin prmin umin umax
+      = ducoUD (fieldOps sqrt pow) bl br plmin prmin umin umax := by
+  have hd : 0 ≤ br * bl * (umin - umax) * (umin - umax) := by
+    rw [mul_assoc]; exact mul_nonneg (mul_pos hbr hbl).le (mul_self_nonneg _)
+  unfold ducoDC at hC
+  unfold ducoDD at hD
+  have e1 : (bl + br) * (plmin - prmin) - br * bl * (umin - umax) * (umin - umax) = 0 := by linarith
+  have e2 : -((bl + br) * (plmin - prmin)) - br * bl * (umin - umax) * (umin - umax) = 0 := by linarith
+  unfold ducoUC ducoUD
+  rw [e1, e2]
+  simp only [fieldOps_sqrt, pymax_eq_max, max_self, hs0, add_zero, sub_zero]
+
+/-- reflection symmetry of the cascade, given that the unguarded last branch is
+only reached when the guard the source does not test (`ducoDD ≥ 0` and `ducoGD`,
+the mirror image of the guard of C) holds -/
+theorem ducoTail_mirror (hbl : 0 < bl) (hbr : 0 < br) (hs0 : sqrt 0 = 0)
+    (hcov : ¬ ducoGA umin umax (ducoUA (fieldOps sqrt pow) bl br plmin prmin umin umax) →
            ¬ ducoGB umin umax (ducoUB (fieldOps sqrt pow) bl br plmin prmin umin umax) →
-           (ducoGC umin umax (ducoUC (fieldOps sqrt pow) bl br plmin prmin umin umax) ↔
-            ¬ ducoGD umin umax (ducoUD (fieldOps sqrt pow) bl br plmin prmin umin umax))) :
+           ¬ (0 ≤ ducoDC bl br plmin prmin umin umax ∧
+              ducoGC umin umax (ducoUC (fieldOps sqrt pow) bl br plmin prmin umin umax)) →
+           (0 ≤ ducoDD bl br plmin prmin umin umax ∧
+            ducoGD umin umax (ducoUD (fieldOps sqrt pow) bl br plmin prmin umin umax))) :
     (ducoTail (fieldOps sqrt pow) br bl prmin plmin (-umax) (-umin)).code
       = (ducoTail (fieldOps sqrt pow) bl br plmin prmin umin umax).code ∧
     (ducoTail (fieldOps sqrt pow) br bl prmin plmin (-umax) (-umin)).r0
@@ -162,18 +195,22 @@ theorem ducoTail_mirror
     (ducoTail (fieldOps sqrt pow) br bl prmin plmin (-umax) (-umin)).r1
       = -(ducoTail (fieldOps sqrt pow) bl br plmin prmin umin umax).r1 := by
   unfold ducoTail
-  rw [ducoUA_mirror, ducoUB_mirror, ducoUC_mirror, ducoUD_mirror]
+  rw [ducoUA_mirror, ducoUB_mirror, ducoUC_mirror, ducoUD_mirror, ducoDC_mirror]
   simp only [ducoGA_mirror, ducoGB_mirror, ducoGC_mirror, ducoP_mirror]
   by_cases hA : ducoGA umin umax (ducoUA (fieldOps sqrt pow) bl br plmin prmin umin umax)
   · simp only [if_pos hA, and_self]
   · by_cases hB : ducoGB umin umax (ducoUB (fieldOps sqrt pow) bl br plmin prmin umin umax)
     · simp only [if_neg hA, if_pos hB, and_self]
-    · have h := hex hA hB
-      by_cases hC : ducoGC umin umax (ducoUC (fieldOps sqrt pow) bl br plmin prmin umin umax)
-      · have hD := h.mp hC
-        simp only [if_neg hA, if_neg hB, if_pos hC, if_neg hD, and_self]
-      · have hD : ducoGD umin umax (ducoUD (fieldOps sqrt pow) bl br plmin prmin umin umax) := by
-          by_contra hD; exact hC (h.mpr hD)
+    · by_cases hC : (0 ≤ ducoDC bl br plmin prmin umin umax ∧
+          ducoGC umin umax (ducoUC (fieldOps sqrt pow) bl br plmin prmin umin umax))
+      · by_cases hD : (0 ≤ ducoDD bl br plmin prmin umin umax ∧
+            ducoGD umin umax (ducoUD (fieldOps sqrt pow) bl br plmin prmin umin umax))
+        · have e := ducoUC_eq_UD sqrt pow bl br plmin prmin umin umax hbl hbr hs0 hC.1 hD.1
+          simp only [if_neg hA, if_neg hB, if_pos hC, if_pos hD]
+          rw [e]
+          simp only [and_self]
+        · simp only [if_neg hA, if_neg hB, if_pos hC, if_neg hD, and_self]
+      · have hD := hcov hA hB hC
         simp only [if_neg hA, if_neg hB, if_neg hC, if_pos hD, and_self]
 
 end mirror
